@@ -88,4 +88,72 @@ TEXTS = {
   "note": BASE_NOTE + " Multi-limb carries and products near 2^256 inside bigint::U256 are NOT analysed (external crate, axiomatised).",
   "technique": "abstract interpretation of MIR into rational terms with hash-consed floor atoms; term equality against reference summaries; abort-site classification",
   "engine": "E-ROUND + E-STRUCT"},
+ "C01": {
+  "level": "Function level (all 128-bit inputs, all rates in [0,1]): the pricing function's MIR is interpreted into an exact term with one floor atom per truncation and the obligation "
+           "gross <= ask*offer/(offer_reserve+offer) is decided by vertex enumeration + coefficient signs; net = gross - floor(rate*gross) by aborting subtraction. System level (structure): "
+           "the swap handler prices on (balance_offer - offer [aborting], balance_ask, offer, stored rate) read in the same call, offer/ask chosen per branch by the verified equal(); unknown assets err; "
+           "delivery is bound to the named asset (C02). On the pinned tree N1 FAILS by exactly 10^-18 at the from_ratio truncation: a genuine defect kept as known finding KF1 (a pinned test asserts the defective value).",
+  "note": BASE_NOTE + " Paper step: n <= y*a/(x+a) => product non-decreasing and n < y for x >= 1.",
+  "technique": "abstract interpretation of MIR into rational terms with floor atoms; vertex/coefficient-sign decision; per-branch provenance of pricing arguments",
+  "engine": "E-ROUND + E-STRUCT"},
+ "C03": {
+  "level": "A history property: static analysis decides only the per-operation lemmas the (paper) induction needs — swap does not lower the product (C01), mint <= d_i*S/r_i (C05.N1), refund <= r_i*a/S and "
+           "exactly a burned (C04), Mint/Burn discipline (C07.R2, C05.R6/R7), delivery bound to pricing (C02.R1-R5). The interleaving quantifier itself is not explored. Inherits KF1 through L1.",
+  "note": BASE_NOTE + " The induction over histories is written in DESIGN.md §5 C03 and is not mechanised.",
+  "technique": "composition of E-ROUND one-sided bounds and E-STRUCT supply-discipline rules (per-operation lemmas of an invariant)",
+  "engine": "E-ROUND + E-STRUCT"},
+ "C04": {
+  "level": "For all reserves, supplies and burn amounts: the refund term extracted from the withdraw handler's MIR (closure over pools) satisfies x <= r*a/S and x >= r*a/S - r/10^18 - 1; "
+           "r, S, a originate from the pair's balances / LP TokenInfo / the cw20 envelope; exactly one Burn of the hook amount to the LP token on every success path; both refunds go to the holder "
+           "through the (re-verified) plain-transfer constructor; handler reachable only behind the LP-token guard.",
+  "note": BASE_NOTE + " cw20-base debiting exactly `a` is trusted.",
+  "technique": "E-ROUND two-sided bound on the refund term + provenance / message inventory on MIR",
+  "engine": "E-ROUND + E-STRUCT"},
+ "C05": {
+  "level": "For all deposits/reserves/supplies: each min() argument is floor(d_i*S/r_i) of its OWN reserve (index pairing checked) with d*S/r - 1 <= m_i <= d*S/r; first provision = isqrt(d0*d1) under "
+           "overflow-checked multiplication, gated exactly by whitelist and both minimums (decision table); zero share rejected before any mint; per pool asset exactly TransferFrom(deposits[i]) or an aborting "
+           "reserve adjustment by deposits[i] of the same loop iteration; deposits[i] = declared amount of the asset equal to pools[i]; reserved unit minted to the LP token address and subtracted; mint recipient/amount provenance.",
+  "note": BASE_NOTE + " 'An address equal to the LP token can never spend' is cw20-base semantics.",
+  "technique": "E-ROUND bounds per min-argument, decision-table extraction, enumerate-index correlation and provenance on MIR",
+  "engine": "E-ROUND + E-STRUCT"},
+ "C06": {
+  "level": "For all 128-bit inputs and rates: g(1-c) - 1 <= n <= g(1-c) + 1 (noise intervals refined to [0, 1-1/q] for constant denominators), commission = floor(c*(n+commission)) and "
+           "n + commission + spread = floor(a*y/x) as TERM IDENTITIES (hash-consed floor atoms incl. the nested-floor rewrite), monotonicity of n in the offer by structural typing. All hold on the pinned tree: "
+           "KF1's 10^-18 excess is absorbed by this property's one-unit slack.",
+  "note": BASE_NOTE + " Strictness of the bounds is the paper step of DESIGN §7.3.",
+  "technique": "E-ROUND obligations + term identity + monotonicity typing over the pricing function's MIR",
+  "engine": "E-ROUND"},
+ "C10": {
+  "level": "Wiring (guard passed before payout; belief/max_spread/offer/return/spread/decimals arguments in the right roles per selection branch), dimension analysis of the three normalisation branches "
+           "(equal decimal exponent of offer', return', spread'), guard shape by term equality with the reference (E = floor(O'D/p), ratios), and the soundness/completeness obligations N1-N4 with recorded certificates.",
+  "note": BASE_NOTE + " N1/N2 under the statement's binding conditions (offer/p >= 1, s <= 1 - 10^-18).",
+  "technique": "unit (exponent) analysis + E-ROUND guard obligations with substitution certificates on MIR terms",
+  "engine": "E-ROUND + E-STRUCT"},
+ "C12": {
+  "level": "Sibling agreement: the Simulation query and the swap handler call the same pricing function on corresponding arguments per branch (reserve selection, amount, the same rate item, response mapping); "
+           "rate items written only at instantiation from one field; reverse quote <= closed form and >= closed form with the denominator perturbed by its two inner truncations (E-ROUND with certificate); "
+           "reverse wiring; router forward / reverse folds are exactly the hop-by-hop composition (order, pair lookup, queried asset, running amount, result).",
+  "note": BASE_NOTE + " 'Its rounding bound' is read as stated in C12.N2; a query and the next swap see the same state by the statement's premise.",
+  "technique": "sibling cross-check by provenance + E-ROUND bounds on the reverse formula + loop-carried accumulator analysis",
+  "engine": "E-ROUND + E-STRUCT"},
+ "C15": {
+  "level": "Wiring (guard with the caller's tolerance, declared deposits, adjusted reserves; propagated; before mints), t > 1 rejected first, guard selected by the caller's Option itself, "
+           "two strict ratio comparisons covering both directions, and soundness (2*10^-18) / completeness (10^-18) obligations for all deposits, reserves and tolerances via certificates.",
+  "note": BASE_NOTE,
+  "technique": "decision-table extraction + E-ROUND guard obligations with substitution certificates",
+  "engine": "E-ROUND + E-STRUCT"},
+ "C18": {
+  "level": "Decides only necessary conditions: renderer and parser agree on scale (pad width = max digits = log10 of the constant = 18), radix, separator, pad/trim character and use / % * of the same constant; "
+           "serde writers emit to_string() and visitors accept exactly what the direct parsers accept (decision table, no extra condition); width conversions guarded with agreeing limb order; "
+           "Decimal<->Decimal256 via to_string/from_str. parse(render(v)) == v itself is NOT decided.",
+  "note": BASE_NOTE + " bigint Display / from_dec_str being radix-10 inverses and cosmwasm Decimal's 18 places are trusted.",
+  "technique": "writer/reader table agreement extracted from MIR constants and call structure",
+  "engine": "E-STRUCT + E-TYPE"},
+ "C20": {
+  "level": "Abort-site closure of the withdraw path (Receive arm, handler, transfer constructor and their helpers): every fallible site is in an allowed category; every numeric abort condition collected "
+           "by E-ROUND is discharged under 1 <= a <= S (zero divisor only S; products bounded by a 128-bit input or 10^18; 256-bit width bound); the path reads only PAIR_INFO and no block data; "
+           "x >= 1 under the entitlement precondition. Any new fallible operation on the path is reported.",
+  "note": BASE_NOTE + " Behaviour of bank / cw20 on the resulting messages is trusted.",
+  "technique": "abort-site enumeration over MIR + E-ROUND discharge of abort conditions",
+  "engine": "E-ROUND + E-STRUCT"},
 }
